@@ -221,11 +221,16 @@ func report(rr *RunResult, verbose bool, keep string) int {
 			continue
 		}
 		n, ok, canaryBad, feasible := 0, 0, 0, 0
+		beTotal, beFeasible := map[string]int{}, map[string]int{}
 		var fails []string
 		for i := range rr.Results {
 			r := &rr.Results[i]
 			if r.O.Func != fr.Func && !(fr.Contract != nil && fr.Contract.Fn == nil && r.O.Func == fr.Func) {
 				continue
+			}
+			if r.O.Canary && keep != "" && os.Getenv("KEEPCANARY") != "" {
+				os.MkdirAll(keep, 0o755)
+				os.WriteFile(filepath.Join(keep, "canary_"+sanitize(r.O.Key)+fmt.Sprintf("_p%d_%s.smt2", r.O.Path, r.R.Status)), []byte(r.SMT), 0o644)
 			}
 			if r.O.Canary {
 				if r.O.Kind == "vacuity" && strings.HasSuffix(r.O.Key, "@exit") {
@@ -235,6 +240,13 @@ func report(rr *RunResult, verbose bool, keep string) int {
 					continue
 				}
 				if r.O.Kind == "vacuity-pre" {
+					continue
+				}
+				if r.O.Kind == "vacuity-backedge" {
+					beTotal[r.O.Key]++
+					if r.R.Status != "unsat" {
+						beFeasible[r.O.Key]++
+					}
 					continue
 				}
 				if r.R.Status == "unsat" && !(r.O.Kind == "vacuity-post" && preUnsat(rr, r.O.Key)) {
@@ -262,6 +274,11 @@ func report(rr *RunResult, verbose bool, keep string) int {
 		}
 		if fr.Paths > 0 && feasible == 0 {
 			fails = append(fails, "   VACUOUS: no feasible path reaches an exit")
+		}
+		for k, t := range beTotal {
+			if beFeasible[k] == 0 {
+				fails = append(fails, fmt.Sprintf("   VACUOUS %s: none of the %d paths through the loop body is feasible (contradictory invariants or callee contracts)", k, t))
+			}
 		}
 		fmt.Printf("== %s: %d paths, %d/%d discharged%s\n", shortFunc(fr.Func), fr.Paths, ok, n, status)
 		for _, er := range fr.Errors {
